@@ -444,7 +444,11 @@ impl JpegBitstreamReconstructor<'_, '_, '_> {
                         3 => 0b01_0010,
                         _ => 0b01_0001,
                     };
-                    let component_bytes = [comp.id, sampling_val, comp.q_idx];
+                    // `q_idx` is a position in the list of quant tables, not a table ID.
+                    let Some(qt) = self.header.quant_tables.get(comp.q_idx as usize) else {
+                        return Err(Error::InvalidData);
+                    };
+                    let component_bytes = [comp.id, sampling_val, qt.index];
                     writer
                         .write_all(&component_bytes)
                         .map_err(Error::ReconstructionWrite)?;
@@ -644,12 +648,15 @@ impl JpegBitstreamReconstructor<'_, '_, '_> {
                     .write_all(&header)
                     .map_err(Error::ReconstructionWrite)?;
 
-                for qt in qts {
+                let first_table_pos =
+                    self.header.quant_tables.len() - self.quant_ptr.len() - qts.len();
+                for (table_pos, qt) in qts.iter().enumerate() {
+                    let table_pos = first_table_pos + table_pos;
                     let channel = self
                         .header
                         .components
                         .iter()
-                        .position(|c| c.q_idx == qt.index);
+                        .position(|c| c.q_idx as usize == table_pos);
                     let q = channel.and_then(|mut channel| {
                         if do_ycbcr && channel <= 1 {
                             channel ^= 1;
